@@ -181,7 +181,7 @@ def tables_rule(chk, prog):
         from .. import charauto
         try:
             iv = charauto.char_predicate(prog, "humphrey_json::parser::is_whitespace")
-            ws = set(chr(c) for lo, hi in iv for c in range(lo, min(hi, lo + 64) + 1))
+            ws = set(c for lo, hi in iv for c in range(lo, min(hi, lo + 64) + 1))
         except charauto.Undecided:
             pass
     chk.ob("R1.whitespace", "humphrey_json::parser::is_whitespace", "whitespace == {SP, HT, LF, CR}", ws == RFC_WS, f"whitespace set {sorted(ws)}")
